@@ -221,6 +221,13 @@ impl<'a, 'tcx> Cx<'a, 'tcx> {
                 }
             }
         }
+        if let Const::Unevaluated(uv, _) = c.const_ {
+            if let Some(pi) = uv.promoted {
+                o.put("promoted", J::n(pi.as_usize() as i128));
+            } else {
+                o.put("unevaluated", J::s(&defpath(self.tcx, uv.def)));
+            }
+        }
         // string literals
         if let Const::Val(cv @ ConstValue::Slice { .. }, t) = c.const_ {
             if let ty::Ref(_, inner, _) = t.kind() {
@@ -680,6 +687,27 @@ fn fn_json<'tcx>(tcx: TyCtxt<'tcx>, ldid: LocalDefId) -> Option<J> {
         blocks.push(cx.block(data));
     }
     o.put("blocks", J::Arr(blocks));
+    // promoted constants (`&Reflink::Always`, ...): their defining statements
+    let mut proms = Vec::new();
+    for pbody in tcx.promoted_mir(did).iter() {
+        let pcx = Cx { tcx, body: pbody, owner: did };
+        let mut stmts = Vec::new();
+        for bb in pbody.basic_blocks.iter() {
+            for st in &bb.statements {
+                if let StatementKind::Assign(b) = &st.kind {
+                    let (pl, rv) = &**b;
+                    let mut sj = J::obj();
+                    sj.put("lhs", pcx.place(pl));
+                    sj.put("rv", pcx.rvalue(rv));
+                    stmts.push(sj);
+                }
+            }
+        }
+        proms.push(J::Arr(stmts));
+    }
+    if !proms.is_empty() {
+        o.put("promoted", J::Arr(proms));
+    }
     Some(o)
 }
 
